@@ -214,6 +214,7 @@ def run_check(prop: str, tier: str, batch_seed: int, workers: int | None = None)
         print(f"KNOWN-FINDING: property={prop} {f['id']}: {f['description']} (seen in {cnt} runs)")
 
     violations_reported = []
+    unreplayable: list[str] = []
     max_report = 5
     # group unknown by clause so one defect gives one report
     by_clause: dict[str, list[dict]] = {}
@@ -239,10 +240,10 @@ def run_check(prop: str, tier: str, batch_seed: int, workers: int | None = None)
                 first = cand
                 break
         if first is None:
-            print(f"HARNESS-ERROR property={prop} clause={clause}: none of the tried candidate scenarios reproduces in isolation "
-                  f"(process-global state leaking between runs?)")
-            _write_evidence(prop, mod, tier, batch_seed, results, t0, [], list(known_seen), harness=1)
-            return EXIT_HARNESS
+            # never a verdict by itself; another clause of the same batch may still give a replayable violation
+            unreplayable.append(f"clause={clause}: none of the tried candidate scenarios reproduces in isolation "
+                                f"(process-global state leaking between runs?)")
+            continue
         scn = first["run"]["scenario"]
 
         def still_fails(cand: dict, clause=clause) -> bool:
@@ -265,14 +266,44 @@ def run_check(prop: str, tier: str, batch_seed: int, workers: int | None = None)
             "original_size": len(json.dumps(scn)), "size": len(json.dumps(small)),
             "runs_with_this_clause": len(items), "scenario": small,
         }, indent=1, default=_json_default))
-        if not _verify_replay_fresh(prop, path):
-            print(f"HARNESS-ERROR property={prop} violation does not replay in a fresh interpreter: {path}")
-            _write_evidence(prop, mod, tier, batch_seed, results, t0, [], list(known_seen), harness=1)
-            return EXIT_HARNESS
+        fresh_ok = _verify_replay_fresh(prop, path)
+        if not fresh_ok:
+            # the controlling process has run many scenarios by now: when the code under test keeps process-global state
+            # (which is itself what some properties forbid) minimisation may have followed that state instead of the
+            # scenario. Fall back to unminimised candidate scenarios, each verified in a fresh interpreter.
+            for cand in [first] + [it for it in items[:6] if it is not first]:
+                cscn = cand["run"]["scenario"]
+                try:
+                    cout = mod.execute(cscn)
+                except Exception:  # noqa: BLE001
+                    continue
+                cv = next((x for x in cout.get("violations", []) if x["clause"] == clause), None)
+                if cv is None:
+                    continue
+                path.write_text(json.dumps({
+                    "property": prop, "clause": clause, "sig": cv.get("sig", {}), "detail": cv["detail"],
+                    "seed": cand["run"]["seed"], "index": cand["run"]["index"], "batch_seed": batch_seed,
+                    "tier": tier, "digest": cout.get("digest"), "shrink_runs": 0, "minimised": False,
+                    "original_size": len(json.dumps(cscn)), "size": len(json.dumps(cscn)),
+                    "runs_with_this_clause": len(items), "scenario": cscn,
+                }, indent=1, default=_json_default))
+                if _verify_replay_fresh(prop, path):
+                    fresh_ok, v = True, cv
+                    break
+        if not fresh_ok:
+            unreplayable.append(f"clause={clause}: violation does not replay in a fresh interpreter: {path}")
+            continue
         print(f"  clause={clause} runs={len(items)} detail={v['detail']}")
         print(f"VIOLATION property={prop} replay={path}")
         violations_reported.append({"clause": clause, "replay": str(path), "detail": v["detail"]})
 
+    if unreplayable and not violations_reported:
+        for u in unreplayable:
+            print(f"HARNESS-ERROR property={prop} {u}")
+        _write_evidence(prop, mod, tier, batch_seed, results, t0, [], list(known_seen), harness=len(unreplayable))
+        return EXIT_HARNESS
+    for u in unreplayable:
+        print(f"  note: not reported, no replay: {u}")
     if det_mismatch and not violations_reported:
         print(f"HARNESS-ERROR property={prop} nondeterministic runs: indices {det_mismatch[:10]}")
         _write_evidence(prop, mod, tier, batch_seed, results, t0, [], list(known_seen), harness=len(det_mismatch))
